@@ -215,7 +215,7 @@ def guard_kinds(repo, ci, fn, keyp, depth=2):
                     kinds.add("root-raw")
     if depth > 0:
         for c in calls_in(fn):
-            if call_recv(c) == "self" and c.args and isinstance(c.args[0], ast.Name) and c.args[0].id in derived:
+            if call_recv(c) == "self" and c.args and names_of(c.args[0]) & derived:
                 dc, h = ci.find_method(call_tail(c))
                 if h is not None and h is not fn:
                     # the helper call must dominate every key-dependent return
